@@ -1,5 +1,6 @@
 import Pushr.Item
 import Pushr.Sem
+import Pushr.Spec.C08
 /-! # C08 — CODE list surgery is coherent with depth-first point indexing
 
 `Item.points t` is the list of all points of `t` in depth-first order (the whole item is point 0).
@@ -313,6 +314,63 @@ theorem position_spec (t p : Item) :
     refine ⟨hlt, ⟨q, ?_, h4⟩, fun j hj => h5 j (by omega)⟩
     rw [trav_eq_points t k hlt]; simpa using h3
   · exact pos_none t p 0
+
+
+/-! ## CAR / CDR / CONS / LIST / APPEND / = / INSERT at 0 against the list structure -/
+
+theorem pointsL_append (xs ys : List Item) : Item.pointsL (xs ++ ys) = Item.pointsL xs ++ Item.pointsL ys := by
+  induction xs with
+  | nil => simp [Item.pointsL]
+  | cons x xs ih => simp [Item.pointsL, ih]
+
+/-- the atoms of a list are the atoms of its elements -/
+theorem atomsOf_list (xs : List Item) :
+    atomsOf (.list xs) = ((Item.pointsL xs).filter fun q => !isList q).map Item.show := by
+  simp [atomsOf, pts, Item.points, isList]
+
+theorem atomsOf_consElems (a : Item) :
+    ((Item.pointsL (consElems a)).filter fun q => !isList q).map Item.show = atomsOf a := by
+  cases a <;> simp [consElems, atomsOf, pts, Item.points, Item.pointsL, isList]
+
+/-- **CONS loses no atom and invents none**: the atoms of the result are those of the second item
+followed by those of the top item -/
+theorem cons_atoms (a b : Item) :
+    atomsOf (.list (consElems a ++ consElems b)) = atomsOf a ++ atomsOf b := by
+  rw [atomsOf_list, pointsL_append, List.filter_append, List.map_append, atomsOf_consElems, atomsOf_consElems]
+
+theorem cons_keepsAtoms (rc : Oracle → State → Nat → Option (Item × Nat)) (ρ : Oracle) (s : State) (top second : Item)
+    (l : List Item) (h : s.code = top :: second :: l) :
+    ∃ r, (semCode rc ρ .cons s).code = r :: l ∧ keepsAtoms top second r = true := by
+  refine ⟨.list (consElems second ++ consElems top), by simp [semCode, h], ?_⟩
+  simp [keepsAtoms, cons_atoms, List.isPerm_iff]
+
+/-- LIST and APPEND keep both operands whole -/
+theorem list_keepsAtoms (top second : Item) : keepsAtoms top second (.list [top, second]) = true := by
+  have : atomsOf (.list [top, second]) = atomsOf top ++ atomsOf second := by
+    rw [atomsOf_list]; simp [Item.pointsL, atomsOf, pts]
+  simp only [keepsAtoms, this, List.isPerm_iff]
+  exact List.perm_append_comm
+
+/-- every closed-form row of `expect` is what the model computes -/
+theorem expect_sound (rc : Oracle → State → Nat → Option (Item × Nat)) (ρ : Oracle) (o : CodeOp) (s w : State)
+    (ho : o = .cdr ∨ o = .cons ∨ o = .car ∨ o = .list ∨ o = .atom ∨ o = .null ∨ o = .length ∨ o = .eq)
+    (h : expect o s = some w) : semCode rc ρ o s = w := by
+  rcases hc : s.code with _ | ⟨top, _ | ⟨second, l⟩⟩
+  · rcases ho with rfl | rfl | rfl | rfl | rfl | rfl | rfl | rfl <;> simp [expect, hc] at h
+  · rcases ho with rfl | rfl | rfl | rfl | rfl | rfl | rfl | rfl <;>
+      (cases top with
+       | list xs => cases xs <;> simp_all [expect, semCode, consElems, isList, Pushr.isList]
+       | _ => simp_all [expect, semCode, consElems, isList, Pushr.isList])
+  · rcases ho with rfl | rfl | rfl | rfl | rfl | rfl | rfl | rfl <;>
+      (cases top with
+       | list xs => cases xs <;> cases second <;> simp_all [expect, semCode, consElems, isList, Pushr.isList]
+       | _ => cases second <;> simp_all [expect, semCode, consElems, isList, Pushr.isList])
+
+/-- INSERT at index 0 replaces the whole item: EXTRACT at 0 then yields the inserted item -/
+theorem insert_zero (rc : Oracle → State → Nat → Option (Item × Nat)) (ρ : Oracle) (s : State) (il : List Int32)
+    (top x : Item) (l : List Item) (hi : s.int = 0 :: il) (hc : s.code = top :: x :: l) :
+    (semCode rc ρ .insert s).code = x :: x :: l := by
+  simp [semCode, hi, hc]
 
 /-! ## CODE.INSERT with an out-of-range index (known finding K02)
 
